@@ -751,6 +751,9 @@ class CSSSerializer:
                     else:
                         val = self._indentblock(val, min(1, len(stacks) + 1))
                 # APPEND
+                if 'HASH' == type_:
+                    # not known to be a colour: keep as written
+                    type_ = None
                 if stacks:
                     stacks[-1].append(val, type_)
                 else:
